@@ -244,6 +244,11 @@ pub fn run(input: &[u8], scn: &str, rec: &mut Rec) {
     let probe = o.has("probe");
     let describe = o.has("onparse");
     let observe = probe || describe || o.has("count");
+    // a quarter of the cases: a parse that fails inside the code section runs on this thread first
+    if wv_gen::rng::fnv64(input) % 4 == 1 {
+        let failed = crate::util::failed_parse_first(input, o.cfg);
+        rec.push_n("failed-parse-first", failed as u64);
+    }
     // --- first parse
     let mut p = match parse_with(input, o.cfg, observe, describe) {
         Err(pan) => {
